@@ -22,7 +22,7 @@ Step(line, f) == IF f \in DOMAIN line THEN line[f] ELSE "missing"
 
 Fwd(line) ==
    LET d == line.d  d3 == line.d3 IN
-   Ds("v3_describes_another_api", "fwd", ApiDiff(Api2(d), Api3(d3)))
+   Ds("v3_describes_another_api", "fwd", ApiDiff3(Api2(d), Api3(d3)))
    \cup Ds("v3_states_another_serialisation", "fwd", SerDiffs(Api2(d), Api3(d3)))
    \cup (IF ServersFwdOK(d, d3) THEN {}
          ELSE {V("v3_servers", "fwd", <<"servers">>, Srv2(d, TRUE), A(SetToSeq({S(u) : u \in Servers3(d3)})))})
@@ -63,7 +63,7 @@ Again(line) ==
             d3a == IF line.d3aSame THEN line.d3 ELSE line.d3a
         IN (IF line.vala # "ok" THEN Plain("v3_again_invalid_" \o line.vala) ELSE {})
            \cup (IF line.d3aSame THEN {}
-                 ELSE Ds("v3_again_describes_another_api", "again", ApiDiff(Api2(d), Api3(d3a)))
+                 ELSE Ds("v3_again_describes_another_api", "again", ApiDiff3(Api2(d), Api3(d3a)))
                       \cup Ds("v3_again_states_another_serialisation", "again", SerDiffs(Api2(d), Api3(d3a)))
                       \cup (IF ServersFwdOK(d, d3a) THEN {}
                             ELSE {V("v3_again_servers", "again", <<"servers">>, Srv2(d, TRUE), A(SetToSeq({S(u) : u \in Servers3(d3a)})))}))
